@@ -1,8 +1,8 @@
 (* Props/C04.v — property C04: Invoke, Stream, Collect and Transform of a compiled graph
    agree.  Only statements, each closed by [exact]; the proofs are in Proofs/Paradigm*.v. *)
 From Eino Require Import Base.Util Model.Paradigm Model.StreamOps Model.ParadigmProg
-  Model.ParadigmSpec Proofs.Paradigm Proofs.ParadigmOps Proofs.ParadigmFieldMap Proofs.ParadigmProg
-  Proofs.ParadigmSpec.
+  Model.ParadigmSpec Model.ParadigmHandlers Proofs.Paradigm Proofs.ParadigmOps Proofs.ParadigmFieldMap
+  Proofs.ParadigmProg Proofs.ParadigmSpec Proofs.ParadigmPaths.
 
 (* ------------------------------------------------------------------ node level *)
 
@@ -428,3 +428,22 @@ Example agree_nonvacuous_wrap :
   /\ vsconcatR (g_transform seq_mrg (compile_sprog wrap_prog) (map Val [VS "a"%string; VS "b"%string]))
      = g_invoke (compile_sprog wrap_prog) (VS "ab"%string).
 Proof. exact wrap_prog_in_domain. Qed.
+
+(* Field mappings with nested paths (FromFieldPath / ToFieldPath / MapFieldPaths over maps) are the
+   sequence of one-step mappings [path_sprog]; it satisfies the decidable hypothesis of
+   [harness_graphs_agree], so that theorem covers every harness graph that contains path mappings. *)
+Theorem path_mapping_wf :
+  forall from to take_map, sprog_wf (path_sprog from to take_map) = true.
+Proof. exact path_sprog_wf_lem. Qed.
+Print Assumptions path_mapping_wf.
+
+(* non-vacuity with nested paths: MapFieldPaths aa.ac -> af.ag from a nested map whose fragments
+   arrive in two chunks, ToFieldPath ah.ai of a chunk-by-chunk transformer, fan-in *)
+Example agree_nonvacuous_paths :
+  sprog_wf paths_prog = true
+  /\ dom_ok (compile_sprog paths_prog) (VS "ab"%string) = true
+  /\ g_invoke (compile_sprog paths_prog) (VS "ab"%string)
+     = Ok (VS "n3{af/;af.ag=n1<ab;ah/;ah.ai=n2(ab);}"%string)
+  /\ vsconcatR (g_transform seq_mrg (compile_sprog paths_prog) (map Val [VS "a"%string; VS "b"%string]))
+     = g_invoke (compile_sprog paths_prog) (VS "ab"%string).
+Proof. exact paths_prog_in_domain. Qed.
